@@ -7,21 +7,88 @@ from treepath import (find, find_matches, get, get_match, TreepathException)
 from codec import Builder, dec, enc, exc_chain, node_full
 
 
+class HarnessTimeout(BaseException):
+    """the library did not answer one scenario within the wall-clock limit"""
+
+
+def deadline(seconds_env, default, on_timeout):
+    """run the observer under a wall-clock limit (SIGALRM in the process's main thread; the
+    library is pure Python, so the handler runs between two byte codes).  Scenarios are tiny:
+    the unchanged library answers each in milliseconds."""
+    import functools
+    import os
+    import signal
+    import threading
+
+    def deco(fn):
+        @functools.wraps(fn)
+        def w(*a, **kw):
+            secs = float(os.environ.get(seconds_env, default))
+            if secs <= 0 or threading.current_thread() is not threading.main_thread():
+                return fn(*a, **kw)
+
+            def onalarm(signum, frame):
+                raise HarnessTimeout()
+
+            old = signal.signal(signal.SIGALRM, onalarm)
+            signal.setitimer(signal.ITIMER_REAL, secs)
+            try:
+                return fn(*a, **kw)
+            except HarnessTimeout:
+                return on_timeout(*a, **kw)
+            finally:
+                signal.setitimer(signal.ITIMER_REAL, 0)
+                signal.signal(signal.SIGALRM, old)
+
+        return w
+
+    return deco
+
+
 def vertex_index(vertex):
     return len(vertex.path_as_list) - 1
 
 
-def make_trace(log):
-    def trace(t):
-        nm = t.next_match
-        pm = t.predicate_match
-        log.append(["T", t.last_match.path_as_str, vertex_index(t.next_vertex),
-                    [nm.path_as_str, nm.data_name] if nm is not None else None,
-                    pm.path_as_str if pm is not None else None])
+def _render_trace(t):
+    nm = t.next_match
+    pm = t.predicate_match
+    return ["T", t.last_match.path_as_str, vertex_index(t.next_vertex),
+            [nm.path_as_str, nm.data_name] if nm is not None else None,
+            pm.path_as_str if pm is not None else None]
 
+
+def make_trace(log):
+    """the callback logs every event as delivered and also *keeps* the event object, as an
+    observer collecting events would; `flush()` (called when a next() returns) re-reads the kept
+    objects: an event that no longer says what it said when it was delivered is logged as the
+    collector sees it"""
+    kept = []
+
+    def trace(t):
+        entry = _render_trace(t)
+        log.append(entry)
+        kept.append((entry, t))
+
+    def flush():
+        for entry, t in kept:
+            try:
+                now = _render_trace(t)
+            except Exception as e:  # noqa
+                now = ["T", "unreadable:" + type(e).__name__, -1, None, None]
+            if now != entry:
+                entry[:] = now
+        del kept[:]
+
+    trace.flush = flush
     return trace
 
 
+def _flush(trace):
+    if trace is not None:
+        trace.flush()
+
+
+@deadline("VERIF_OBS_TIMEOUT", 10, lambda sc, traced=True: [{"e": [], "s": ["X", ["HarnessTimeout"]]}])
 def observe_query(sc, traced=True):
     """returns the list of per-call records [{e: events, s: signal}]"""
     doc = dec(sc["doc"])
@@ -58,6 +125,7 @@ def observe_query(sc, traced=True):
                 sig = ["S"]
             except Exception as e:  # noqa
                 sig = ["X", exc_chain(e)]
+            _flush(trace)
             out.append({"e": list(log), "s": sig})
         return out
     del log[:]
@@ -82,6 +150,7 @@ def observe_query(sc, traced=True):
             sig = ["V", enc(r)]
     except Exception as e:  # noqa
         sig = ["X", exc_chain(e)]
+    _flush(trace)
     return [{"e": list(log), "s": sig}]
 
 
@@ -134,6 +203,7 @@ def final_doc(sc):
     return box.get("doc")
 
 
+@deadline("VERIF_OBS_TIMEOUT", 10, lambda sc, _box=None: [{"r": ["err", ["HarnessTimeout"]], "g": None}])
 def observe_mutate(sc, _box=None):
     from treepath import set_, set_match, pop, pop_match
     doc = dec(sc["doc"])
@@ -306,7 +376,21 @@ class DescrEnv:
         return cls
 
     def holder(self, cls, doc, chain):
-        """the instance holding the last declaration"""
+        """the instance holding the last declaration.  First the same declarations are read on
+        a *twin* instance over an equal but separate document: descriptors live on the class, so
+        any state they keep between instances (a cached view, a remembered node) would make the
+        operation that follows act on the twin's nodes instead of this document's."""
+        try:
+            import copy
+            twin = cls(copy.deepcopy(doc))
+            for ent in chain[:-1]:
+                v = getattr(twin, ent[0])
+                if len(ent) > 2 and ent[2] == "iter":
+                    v = list(v)[ent[3]]
+                twin = v
+            getattr(twin, chain[-1][0])
+        except Exception:
+            pass
         inst = cls(doc)
         for ent in chain[:-1]:
             v = getattr(inst, ent[0])
@@ -504,6 +588,7 @@ def _key_obj(ks):
     raise ValueError(ks)
 
 
+@deadline("VERIF_OBS_TIMEOUT", 10, lambda sc: [["err", "HarnessTimeout"]])
 def observe_builder(sc):
     from treepath import path as _path, pathd as _pathd, PathSyntaxError
     from treepath.path.builder.path_builder import PathBuilder
@@ -590,6 +675,7 @@ def build_graph(nodes):
     return objs
 
 
+@deadline("VERIF_GRAPH_TIMEOUT", 60, lambda sc: [{"n": -1, "s": ["X", ["HarnessTimeout"]]}])
 def observe_graph(sc):
     objs = build_graph(sc["nodes"])
     root = objs[sc["root"]]
@@ -602,7 +688,15 @@ def observe_graph(sc):
         count[0] += 1
 
     b.tracer = trace
-    it = find_matches(expr, root, trace=trace)
+    src = root
+    if sc.get("src"):
+        sexpr = Builder([]).steps(sc["src"]["path"])
+        k = sc["src"].get("k", 0)
+        ms = list(itertools.islice(find_matches(sexpr, root), k + 1))
+        if len(ms) <= k:
+            return "nosrc"
+        src = ms[k]
+    it = find_matches(expr, src, trace=trace)
     out = []
     for _ in range(sc.get("nexts", 1)):
         count[0] = 0
